@@ -467,8 +467,14 @@ pub fn f_delete(seed: u64, burst: bool) -> Plan {
     plan.knobs = knobs(&mut rng, false, 0);
     let topic = topic_name("proj-d", 0);
     let n_subs = rng.range(1, 2) as usize;
+    // "fresh": the victim is created in the racing phase itself, so consumers and the delete can
+    // find it between its registration and its attachment to the topic
+    let fresh = !burst && rng.chance(200);
     let mut setup = vec![Step::new(Op::CreateTopic { topic: topic.clone() })];
     for j in 0..n_subs {
+        if fresh && j == 0 {
+            continue;
+        }
         setup.push(Step::new(Op::CreateSub { sub: sub_name("proj-d", 0, j), topic: topic.clone(), ack_deadline: 10, push: None }));
     }
     if rng.chance(500) {
@@ -493,18 +499,33 @@ pub fn f_delete(seed: u64, burst: bool) -> Plan {
         slot += 1;
         scripts.push(vec![Step::after(rng.below(2_000), Op::PullBg { slot: my, sub: victim.clone(), max: 10 })]);
     }
+    let late_consumers = if fresh { std::mem::take(&mut scripts) } else { Vec::new() };
     plan.phases.push(Phase { scripts, advance_us: rng.below(2_000_000), audit: false });
     // sometimes the topic goes first: the subscription is then an orphan when it is deleted
-    if !burst && rng.chance(250) {
+    if !burst && !fresh && rng.chance(250) {
         plan.phases.push(Phase { scripts: vec![vec![Step::new(Op::DeleteTopic { topic: topic.clone() })]], advance_us: rng.below(500_000), audit: false });
     }
     // the delete, racing with other requests
     let mut scripts: Vec<Vec<Step>> = Vec::new();
+    if fresh {
+        scripts.push(vec![Step::after(rng.below(300), Op::CreateSub { sub: victim.clone(), topic: topic.clone(), ack_deadline: 10, push: None })]);
+        for mut c in late_consumers {
+            for st in c.iter_mut() {
+                st.delay_us = rng.below(3) * rng.below(400);
+            }
+            scripts.push(c);
+        }
+    }
+    // the topic may be deleted at the same time as the subscription
+    let topic_racer = !burst && !fresh && rng.chance(200);
+    if topic_racer {
+        scripts.push(vec![Step::after(rng.below(3) * rng.below(500), Op::DeleteTopic { topic: topic.clone() })]);
+    }
     let n_racers = if burst { rng.range(10, 40) } else { rng.range(0, 6) };
     let delete_pos = rng.below(n_racers + 1);
     for i in 0..=n_racers {
         if i == delete_pos {
-            let mut st = Step::after(rng.below(3) * rng.below(500), Op::DeleteSub { sub: victim.clone() });
+            let mut st = Step::after(if fresh { rng.below(800) } else { rng.below(3) * rng.below(500) }, Op::DeleteSub { sub: victim.clone() });
             // the client that asked for the deletion may itself go away while it is being processed
             if !burst && rng.chance(250) {
                 st.abandon_at = rng.range(1, 4) as u32;
@@ -524,7 +545,18 @@ pub fn f_delete(seed: u64, burst: bool) -> Plan {
         scripts.push(vec![Step::after(rng.below(3) * rng.below(500), op)]);
     }
     plan.phases.push(Phase { scripts, advance_us: 0, audit: true });
-    plan.phases.push(Phase { scripts: vec![vec![Step::new(Op::GetSub { sub: victim.clone() }), Step::new(Op::Publish { topic: topic.clone(), msgs: msgs(&mut rng, 1, false) })]], advance_us: 0, audit: true });
+    let mut tail = vec![Step::new(Op::GetSub { sub: victim.clone() })];
+    if !burst && rng.chance(500) {
+        // the client repeats its DeleteSubscription (whatever the first answer was): it must be
+        // told NOT_FOUND, or delete the subscription now and release whoever still waits on it
+        tail.push(Step::new(Op::DeleteSub { sub: victim.clone() }));
+        tail.push(Step::new(Op::GetSub { sub: victim.clone() }));
+    }
+    tail.push(Step::new(Op::Publish { topic: topic.clone(), msgs: msgs(&mut rng, 1, false) }));
+    plan.phases.push(Phase { scripts: vec![tail], advance_us: 0, audit: true });
+    if !burst {
+        plan.phases.push(Phase { scripts: vec![], advance_us: 0, audit: true });
+    }
     plan
 }
 
@@ -1436,6 +1468,219 @@ pub fn f_consumers_saturated(seed: u64) -> Plan {
     plan
 }
 
+
+// ------------------------------------------------------------------------------------------------
+// F-burst-order: several publishes inside a burst of requests that fills a subscription's mailbox
+// (the fan-out of one publish has to wait for a slot while the next one arrives), then one
+// consumer drains: the order of first deliveries must still be the publish order.
+// ------------------------------------------------------------------------------------------------
+
+pub fn f_burst_order(seed: u64) -> Plan {
+    let mut rng = Rng::new(seed);
+    let mut plan = Plan { seed, family: "burst_order".into(), final_drain: true, health_probe: true, ..Default::default() };
+    plan.knobs = knobs(&mut rng, false, 0);
+    let topic = topic_name("proj-b", 0);
+    let n_subs = rng.range(1, 2) as usize;
+    let subs: Vec<String> = (0..n_subs).map(|j| sub_name("proj-b", 0, j)).collect();
+    let mut setup = vec![Step::new(Op::CreateTopic { topic: topic.clone() })];
+    for s in subs.iter() {
+        setup.push(Step::new(Op::CreateSub { sub: s.clone(), topic: topic.clone(), ack_deadline: 60, push: None }));
+    }
+    plan.phases.push(Phase { scripts: vec![setup], advance_us: 0, audit: false });
+    for _ in 0..rng.range(1, 2) {
+        let mut scripts: Vec<Vec<Step>> = Vec::new();
+        let n_burst = rng.range(18, 40);
+        for _ in 0..n_burst {
+            let sub = rng.pick(&subs).clone();
+            let op = match rng.below(3) {
+                0 => Op::ModAck { sub, sel: Sel { mine: false, pick: Pick::None, extra: vec!["424242".into()], ..Sel::none() }, secs: 10 },
+                1 => Op::Ack { sub, sel: Sel { mine: false, pick: Pick::None, extra: vec!["424243".into()], ..Sel::none() } },
+                _ => Op::Pull { sub, max: 0, immediate: true },
+            };
+            scripts.push(vec![Step::new(op)]);
+        }
+        for _ in 0..rng.range(2, 4) {
+            let pos = rng.below(scripts.len() as u64 + 1) as usize;
+            scripts.insert(pos, vec![Step::new(Op::Publish { topic: topic.clone(), msgs: msgs_r(&mut rng, 1, 2, false) })]);
+        }
+        plan.phases.push(Phase { scripts, advance_us: 0, audit: true });
+    }
+    plan.phases.push(Phase { scripts: subs.iter().map(|s| vec![Step::new(Op::DrainPull { sub: s.clone() })]).collect(), advance_us: 0, audit: true });
+    plan
+}
+
+// ------------------------------------------------------------------------------------------------
+// F-zombie: a CreateSubscription racing a DeleteSubscription of the same name next to a healthy
+// subscription of the same topic, then publishes (which may fail half-way through the fan-out
+// when the deleted subscription stayed attached), then the healthy subscription is drained.
+// ------------------------------------------------------------------------------------------------
+
+pub fn f_zombie(seed: u64) -> Plan {
+    let mut rng = Rng::new(seed);
+    let mut plan = Plan { seed, family: "zombie".into(), final_drain: true, health_probe: true, ..Default::default() };
+    plan.tags.push("audit_lists".into());
+    plan.knobs = knobs(&mut rng, false, 0);
+    if plan.knobs.site_mask == 0 || rng.chance(500) {
+        plan.knobs.site_mask = u64::MAX;
+        plan.knobs.yield_permille = *rng.pick(&[300u32, 500, 700]);
+        plan.knobs.max_yields = rng.range(1, 5) as u32;
+    }
+    let topic = topic_name("proj-y", 0);
+    let healthy = sub_name("proj-y", 0, 0);
+    let racy = sub_name("proj-y", 0, 1);
+    plan.phases.push(Phase {
+        scripts: vec![vec![Step::new(Op::CreateTopic { topic: topic.clone() }), Step::new(Op::CreateSub { sub: healthy.clone(), topic: topic.clone(), ack_deadline: 30, push: None })]],
+        advance_us: 0,
+        audit: false,
+    });
+    let mut dl = 11;
+    for _ in 0..rng.range(1, 3) {
+        let mut scripts = vec![
+            vec![Step::after(rng.below(3) * rng.below(200), Op::CreateSub { sub: racy.clone(), topic: topic.clone(), ack_deadline: dl, push: None })],
+            vec![Step::after(rng.below(3) * rng.below(200), Op::DeleteSub { sub: racy.clone() })],
+        ];
+        dl += 1;
+        if rng.chance(400) {
+            scripts.push(vec![Step::after(rng.below(300), Op::Publish { topic: topic.clone(), msgs: msgs(&mut rng, 1, true) })]);
+        }
+        plan.phases.push(Phase { scripts, advance_us: 0, audit: true });
+        // publishes, one after the other
+        let mut s = Vec::new();
+        for _ in 0..rng.range(1, 3) {
+            s.push(Step::after(rng.below(1_000), Op::Publish { topic: topic.clone(), msgs: msgs_r(&mut rng, 1, 2, true) }));
+        }
+        if rng.chance(500) {
+            // the name is created and deleted again (which detaches whatever the topic held for it)
+            s.push(Step::new(Op::CreateSub { sub: racy.clone(), topic: topic.clone(), ack_deadline: dl, push: None }));
+            dl += 1;
+            s.push(Step::new(Op::DeleteSub { sub: racy.clone() }));
+            s.push(Step::new(Op::Publish { topic: topic.clone(), msgs: msgs_r(&mut rng, 1, 2, true) }));
+        }
+        s.push(Step::new(Op::Pull { sub: healthy.clone(), max: 1000, immediate: true }));
+        if rng.chance(500) {
+            s.push(Step::new(Op::Ack { sub: healthy.clone(), sel: sel_any(Pick::LastResponse) }));
+        }
+        plan.phases.push(Phase { scripts: vec![s], advance_us: *rng.pick(&[0u64, 0, 31_000_000]), audit: true });
+    }
+    plan
+}
+
+// ------------------------------------------------------------------------------------------------
+// F-topicburst: a create or delete of a subscription processed while its topic's mailbox is full
+// (a burst of publishes and listings on the topic), then the name is used sequentially.
+// ------------------------------------------------------------------------------------------------
+
+pub fn f_topicburst(seed: u64) -> Plan {
+    let mut rng = Rng::new(seed);
+    let mut plan = Plan { seed, family: "topicburst".into(), final_drain: true, health_probe: true, ..Default::default() };
+    plan.tags.push("names".into());
+    plan.tags.push("audit_lists".into());
+    plan.knobs = knobs(&mut rng, false, 0);
+    let topic = topic_name("proj-q", 0);
+    let subs: Vec<String> = (0..2).map(|j| sub_name("proj-q", 0, j)).collect();
+    let mut dl = 11;
+    let mut setup = vec![Step::new(Op::CreateTopic { topic: topic.clone() })];
+    for s in subs.iter().take(rng.range(1, 2) as usize) {
+        setup.push(Step::new(Op::CreateSub { sub: s.clone(), topic: topic.clone(), ack_deadline: dl, push: None }));
+        dl += 1;
+    }
+    plan.phases.push(Phase { scripts: vec![setup], advance_us: 0, audit: false });
+    for _ in 0..rng.range(1, 2) {
+        let mut scripts: Vec<Vec<Step>> = Vec::new();
+        for _ in 0..rng.range(17, 34) {
+            let op = match rng.below(4) {
+                0 | 1 => Op::Publish { topic: topic.clone(), msgs: msgs(&mut rng, 1, false) },
+                2 => Op::Walk { kind: ListKind::TopicSubs, parent: topic.clone(), page_size: 1000 },
+                _ => Op::GetTopic { topic: topic.clone() },
+            };
+            scripts.push(vec![Step::new(op)]);
+        }
+        // exactly one create or delete in the burst (nothing else that could provoke a conflict)
+        let name = rng.pick(&subs).clone();
+        let op = if rng.chance(700) {
+            Op::DeleteSub { sub: name.clone() }
+        } else {
+            dl += 1;
+            Op::CreateSub { sub: name.clone(), topic: topic.clone(), ack_deadline: dl, push: None }
+        };
+        let pos = rng.below(scripts.len() as u64 + 1) as usize;
+        scripts.insert(pos, vec![Step::new(op)]);
+        plan.phases.push(Phase { scripts, advance_us: 0, audit: true });
+        // the name afterwards, one request at a time
+        let mut s = Vec::new();
+        for _ in 0..rng.range(2, 5) {
+            let op = match rng.below(6) {
+                0 | 1 => Op::GetSub { sub: name.clone() },
+                2 | 3 => Op::DeleteSub { sub: name.clone() },
+                4 => {
+                    dl += 1;
+                    Op::CreateSub { sub: name.clone(), topic: topic.clone(), ack_deadline: dl, push: None }
+                }
+                _ => Op::Pull { sub: name.clone(), max: 10, immediate: true },
+            };
+            s.push(Step::new(op));
+        }
+        plan.phases.push(Phase { scripts: vec![s], advance_us: 0, audit: true });
+    }
+    plan
+}
+
+// ------------------------------------------------------------------------------------------------
+// F-recreate: a CreateSubscription that is slow (stalled on its way to the topic) and then
+// abandoned by its client, while the same name is deleted and created again by someone else;
+// afterwards the name is read sequentially.
+// ------------------------------------------------------------------------------------------------
+
+pub fn f_recreate(seed: u64) -> Plan {
+    let mut rng = Rng::new(seed);
+    let mut plan = Plan { seed, family: "recreate".into(), final_drain: true, health_probe: true, ..Default::default() };
+    plan.tags.push("names".into());
+    plan.tags.push("audit_lists".into());
+    plan.knobs = knobs(&mut rng, true, 0);
+    // stalls on: the slow create is slow because its attach is held up at a schedule point
+    plan.knobs.site_mask = if rng.chance(500) { u64::MAX } else { rng.next() | rng.next() };
+    plan.knobs.stall_permille = *rng.pick(&[150u32, 300, 500]);
+    plan.knobs.stall_max_us = *rng.pick(&[3_000u64, 8_000]);
+    plan.knobs.yield_permille = *rng.pick(&[0u32, 150, 300]);
+    plan.knobs.max_yields = 2;
+    let topic = topic_name("proj-r", 0);
+    let sub = sub_name("proj-r", 0, 0);
+    plan.phases.push(Phase { scripts: vec![vec![Step::new(Op::CreateTopic { topic: topic.clone() })]], advance_us: 0, audit: false });
+    let mut dl = 11;
+    for _ in 0..rng.range(1, 2) {
+        let mut slow = Step::after(rng.below(200), Op::CreateSub { sub: sub.clone(), topic: topic.clone(), ack_deadline: dl, push: None });
+        dl += 1;
+        if rng.chance(600) {
+            slow.abandon_after_us = *rng.pick(&[500u64, 2_000, 5_000, 9_000, 20_000]);
+        } else {
+            slow.abandon_at = rng.range(1, 3) as u32;
+        }
+        let mut other = Vec::new();
+        if rng.chance(500) {
+            other.push(Step::after(rng.below(3) * rng.below(2_000), Op::DeleteSub { sub: sub.clone() }));
+        }
+        other.push(Step::after(rng.below(2) * rng.below(if other.is_empty() { 300 } else { 2_000 }), Op::CreateSub { sub: sub.clone(), topic: topic.clone(), ack_deadline: dl, push: None }));
+        dl += 1;
+        if rng.chance(300) {
+            other.push(Step::after(rng.below(2_000), Op::GetSub { sub: sub.clone() }));
+        }
+        plan.phases.push(Phase { scripts: vec![vec![slow], other], advance_us: 0, audit: true });
+        let mut s = vec![Step::new(Op::GetSub { sub: sub.clone() })];
+        for _ in 0..rng.range(0, 2) {
+            s.push(Step::new(match rng.below(4) {
+                0 => Op::Pull { sub: sub.clone(), max: 10, immediate: true },
+                1 => Op::ListPage { kind: ListKind::Subs, parent: "projects/proj-r".into(), page_size: 1000, token: String::new() },
+                2 => Op::Publish { topic: topic.clone(), msgs: msgs(&mut rng, 1, false) },
+                _ => Op::GetSub { sub: sub.clone() },
+            }));
+        }
+        if rng.chance(400) {
+            s.push(Step::new(Op::DeleteSub { sub: sub.clone() }));
+        }
+        plan.phases.push(Phase { scripts: vec![s], advance_us: 0, audit: true });
+    }
+    plan
+}
 
 // ------------------------------------------------------------------------------------------------
 // F-lease-stream: deadlines set and re-set through StreamingPull control messages, with quiet
